@@ -19,6 +19,7 @@ import (
 type Config struct {
 	Servers      []string `json:"servers"` // seed addresses
 	Password     string   `json:"password,omitempty"`
+	SlowlogMs    int      `json:"slowlog_ms,omitempty"` // slowlog_slower_than; 0 = 1 ms (on: every delayed reply takes the slow-log path), negative = off
 	DisableSlave bool     `json:"disable_slave,omitempty"`
 	TimeoutMs    int      `json:"timeout_ms,omitempty"`
 	MaxLen       int      `json:"max_len,omitempty"` // msg_max_length_limit (0 = default 6 MiB)
@@ -37,7 +38,7 @@ type Config struct {
 
 // Key identifies configurations that can share a proxy process.
 func (c Config) Key() string {
-	return fmt.Sprintf("%v|%s|%v|%d|%d|%d|%v|%v|%v|%d|%d|%d", c.Servers, c.Password, c.DisableSlave, c.TimeoutMs, c.MaxLen, c.ServerConns, c.Preconnect, c.WhitelistEnable, c.WhitelistIPs, c.BufCap, c.SndBuf, c.RcvBuf)
+	return fmt.Sprintf("%v|%s|%v|%d|%d|%d|%v|%v|%v|%d|%d|%d|%d", c.Servers, c.Password, c.DisableSlave, c.TimeoutMs, c.MaxLen, c.ServerConns, c.Preconnect, c.WhitelistEnable, c.WhitelistIPs, c.BufCap, c.SndBuf, c.RcvBuf, c.SlowlogMs)
 }
 
 // Proxy is a running proxy subprocess.
@@ -157,6 +158,13 @@ func startOnce(bin string, cfg Config) (*Proxy, error) {
 	if retry == 0 {
 		retry = 500
 	}
+	slowlog := cfg.SlowlogMs
+	switch {
+	case slowlog == 0:
+		slowlog = 1
+	case slowlog < 0:
+		slowlog = 0
+	}
 	yaml := fmt.Sprintf(`port: %d
 web_port: 0
 log_path: %s
@@ -168,13 +176,13 @@ redis:
   password: %s
   preconnect: %v
   msg_max_length_limit: %d
-  slowlog_slower_than: 0
+  slowlog_slower_than: %d
   timeout: %d
   conn_timeout: 1000
   server_retry_timeout: %d
   disable_slave: %v
   server_connections: %d
-`, port, filepath.Join(dir, "log"), strings.Join(cfg.Servers, ","), yamlString(cfg.Password), cfg.Preconnect, cfg.MaxLen, cfg.TimeoutMs, retry, cfg.DisableSlave, sc)
+`, port, filepath.Join(dir, "log"), strings.Join(cfg.Servers, ","), yamlString(cfg.Password), cfg.Preconnect, cfg.MaxLen, slowlog, cfg.TimeoutMs, retry, cfg.DisableSlave, sc)
 	if err := os.WriteFile(filepath.Join(conf, "rc.yaml"), []byte(yaml), 0o644); err != nil {
 		return nil, err
 	}
